@@ -27,12 +27,14 @@ PLAN_CROWDED_CELLS = dict(cfg=P + "coulomb_atoms/cell_veto.ini", sched="heap_sch
 PLAN_TIES = dict(ties=True, cfg=P + "coulomb_atoms/power_bounded_dump.ini", sched="heap_scheduler", end="3", interval="0.3", dumps=[3, 4, 5, 6, 8, 9],
                  sets=["FixedIntervalSamplingEventHandler.sampling_interval=0.5",
                        "SingleIndependentActivePeriodicDirectionEndOfChainEventHandler.chain_time=0.75"])
+# dumping events that coincide bit for bit with sampling events (both on multiples of 0.5)
+PLAN_TIES_DUMP = dict(PLAN_TIES, end="4", interval="1.0", dumps=None)
 PLANS = {
-    "quick": [PLAN_TIES, dict(cfg=P + "coulomb_atoms/power_bounded_dump.ini", sched="heap_scheduler", end="80", interval="17.3", dumps=[1, 2, 4]),
+    "quick": [PLAN_TIES, PLAN_TIES_DUMP, dict(cfg=P + "coulomb_atoms/power_bounded_dump.ini", sched="heap_scheduler", end="80", interval="17.3", dumps=[1, 2, 4]),
               dict(cfg=P + "coulomb_atoms/power_bounded_dump.ini", sched="list_scheduler", end="60", interval="19.7", dumps=[1, 3]),
               dict(cfg=P + "dipoles/dipole_factors_inside_first.ini", sched="heap_scheduler", end="25", interval="3.3", dumps=[2, 5]),
               PLAN_8_ATOMS, PLAN_CROWDED_CELLS],
-    "thorough": [dict(PLAN_TIES, dumps=None), dict(PLAN_TIES, dumps=None, sched="list_scheduler"), dict(cfg=P + "coulomb_atoms/power_bounded_dump.ini", sched="heap_scheduler", end="300", interval="19.7", dumps=None),
+    "thorough": [dict(PLAN_TIES, dumps=None), PLAN_TIES_DUMP, dict(PLAN_TIES_DUMP, sched="list_scheduler"), dict(PLAN_TIES, dumps=None, sched="list_scheduler"), dict(cfg=P + "coulomb_atoms/power_bounded_dump.ini", sched="heap_scheduler", end="300", interval="19.7", dumps=None),
                  dict(cfg=P + "coulomb_atoms/power_bounded_dump.ini", sched="list_scheduler", end="300", interval="23.1", dumps=None),
                  dict(cfg=P + "coulomb_atoms/cell_veto.ini", sched="heap_scheduler", end="60", interval="7.7", dumps=None),
                  dict(cfg=P + "coulomb_atoms/cell_veto.ini", sched="list_scheduler", end="40", interval="9.1", dumps=None),
@@ -115,6 +117,9 @@ def dump_resume(chk, plans, only_props):
                     continue
                 if not r["status"].get("ok") and only_props is not None:
                     continue
+                if not r["status"].get("ok") and r["status"].get("exc") == "harness":
+                    chk.machinery("plan %d dump %d: harness failure in the resumed run: %s" % (n, k, r["status"].get("msg")))
+                    continue
                 if not r["status"].get("ok"):
                     chk.violation("resume:exception", "plan %d dump %d: resumed run terminated by %s: %s"
                                   % (n, k, r["status"].get("exc"), r["status"].get("msg")), r["status"])
@@ -163,7 +168,10 @@ def report(chk, r, pid, what):
     if r.get("tlc") is not None:
         chk.add_tlc("TraceEcmc/" + r["job"]["name"], r["tlc"])
     if not st.get("ok"):
-        chk.violation("run-exception:%s" % st.get("exc"), "%s terminated by %s: %s" % (what, st.get("exc"), st.get("msg")), st)
+        if st.get("exc") == "harness":
+            chk.machinery("%s: harness failure: %s" % (what, st.get("msg")))
+        else:
+            chk.violation("run-exception:%s" % st.get("exc"), "%s terminated by %s: %s" % (what, st.get("exc"), st.get("msg")), st)
     v = r.get("verdict")
     if v:
         chk.traces += 1
